@@ -217,8 +217,13 @@ def check_table(job):
             lines = ["\\data\\"] + ["ngram %d=%d" % (k, len(by_k[k])) for k in range(1, N + 1)] + [""]
             for k in range(1, N + 1):
                 lines.append("\\%d-grams:" % k)
-                for v in by_k[k]:
-                    lines.append("%d %s%s" % (v["lp"], " ".join(tok[x] for x in v["g"]), (" %d" % v["bo"]) if k < N else ""))
+                for j, v in enumerate(by_k[k]):
+                    # every other lower-order entry is written WITHOUT its back-off column (implicit weight 0)
+                    implicit = k < N and j % 2 == 1
+                    if implicit:
+                        v = dict(v, bo=0)
+                        by_k[k][j] = v
+                    lines.append("%d %s%s" % (v["lp"], " ".join(tok[x] for x in v["g"]), (" %d" % v["bo"]) if (k < N and not implicit) else ""))
                 lines.append("")
             lines.append("\\end\\")
             text = "\n".join(lines) + "\n"
